@@ -104,15 +104,21 @@ func (e *Exec) binop(op token.Token, xt, yt types.Type, x, y Value) Value {
 			}
 			e.unsupported("comparison on opaque float")
 		}
+		rnd := func(f float64) Value {
+			if b, ok := xt.Underlying().(*types.Basic); ok && b.Kind() == types.Float32 {
+				return FloatV{F: float64(float32(f))} // float32 arithmetic rounds every result
+			}
+			return FloatV{F: f}
+		}
 		switch op {
 		case token.ADD:
-			return FloatV{F: xv.F + yv.F}
+			return rnd(xv.F + yv.F)
 		case token.SUB:
-			return FloatV{F: xv.F - yv.F}
+			return rnd(xv.F - yv.F)
 		case token.MUL:
-			return FloatV{F: xv.F * yv.F}
+			return rnd(xv.F * yv.F)
 		case token.QUO:
-			return FloatV{F: xv.F / yv.F}
+			return rnd(xv.F / yv.F)
 		case token.EQL:
 			return ts.Bool(xv.F == yv.F)
 		case token.NEQ:
